@@ -1,7 +1,22 @@
 #!/bin/bash
-# usage: lib/reseed.sh <PROP>...  — re-runs every seeded change of the properties (seeded/<PROP>-*) through lib/seedtest.sh and prints CAUGHT / MISSED per change; compare with the "result" in each meta.json
+# usage: lib/reseed.sh <PROP>...  — re-runs every seeded change of the properties (seeded/<PROP>-*)
+# against a scratch worktree of /repo HEAD and prints one line per change:
+#   RESEED <id> <prop> rc=<exit> concrete=<violations with a failing input> tie_only=<violations
+#   ending in no-failing-input-found> first=<first reason>
+# compare with the "result" in each meta.json. VERIF_DIR (default /verif) selects the checkout whose
+# ./check is run; TIER (default quick).
+vd=${VERIF_DIR:-/verif}; tier=${TIER:-quick}
+export GOFLAGS=-mod=mod GOPROXY=off
 for p in "$@"; do
   for d in /verif/seeded/$p-*; do
-    /verif/lib/seedtest.sh $d $p 2>&1 | grep -E "^SEED .* (property|patch does|does not build)" | cut -c1-160
+    id=$(basename $d); wt=/tmp/rs_$$_$id
+    git -C /repo worktree add -q --detach "$wt" HEAD || continue
+    if ! git -C "$wt" apply "$d/patch.diff" 2>/dev/null; then echo "RESEED $id $p patch-does-not-apply"; git -C /repo worktree remove --force "$wt"; continue; fi
+    if ! (cd "$wt" && go build ./... && go build -tags verif ./...) >/dev/null 2>&1; then echo "RESEED $id $p does-not-build"; git -C /repo worktree remove --force "$wt"; continue; fi
+    out=$(cd $vd && VERIF_EVIDENCE_DIR=/tmp/rs_ev_$$ VERIF_REPO="$wt" ./check $p $tier 2>&1); rc=$?
+    c=$(echo "$out" | grep -c "^VIOLATION" ); t=$(echo "$out" | grep "^VIOLATION" | grep -c "no-failing-input-found$")
+    first=$(echo "$out" | grep -m1 "^# " | cut -c3-90 | tr ' ' '_')
+    echo "RESEED $id $p rc=$rc concrete=$((c-t)) tie_only=$t first=$first"
+    rm -rf /tmp/rs_ev_$$; git -C /repo worktree remove --force "$wt" >/dev/null 2>&1
   done
 done
